@@ -16,7 +16,9 @@ from ..scen import REQ, RESP, INFO, hb
 
 LEVEL = 'fault_enumeration'
 RULE = ('catalogue of constructed violation kinds x stream states x role (exhaustive every run), then random hostile '
-        'traffic delivered one frame per receive_data call; non-trivial = receive_data raised ProtocolError at least '
+        'traffic delivered one frame per receive_data call; for the window-violation kinds (DATA overrunning a stream or the connection '
+        'window, padded or not; window and INITIAL_WINDOW_SIZE overflows, also of promised streams) silence is a violation too: the '
+        'category has to surface as the connection error or as RST_STREAM(FLOW_CONTROL_ERROR); non-trivial = receive_data raised ProtocolError at least '
         'once and the GOAWAY oracle was evaluated; distinct = (layer, kind, state, role) for the catalogue, hash of '
         'delivered bytes for random cases')
 MINIMA = {'goaway_oracle_evaluated': 300, 'catalogue_raised': 200, 'lastid_nonzero_checked': 30}
@@ -28,6 +30,12 @@ FS, FC, SC, CE, EYC, PE, RS = (wire.FRAME_SIZE_ERROR, wire.FLOW_CONTROL_ERROR, w
 
 STATES = ['fresh', 'open', 'open_resp', 'hc_remote', 'hc_local', 'closed_es', 'closed_es_cleaned',
           'closed_rst_sent', 'closed_rst_recv', 'pushed_closed_es', 'pushed_closed_es_cleaned']
+
+
+# violation classes that the unchanged library always answers and that no reading of the RFC lets pass in silence
+MUST_SURFACE = ('data-overruns-stream-window', 'padded-data-overruns-stream-window', 'data-overruns-connection-window',
+                'window-update-conn-overflow', 'settings-iws-2^31', 'settings-iws-2^32-1',
+                'settings-iws-delta-overflows-stream-window', 'settings-iws-delta-overflows-reserved-stream-window')
 
 
 class GoawayMonitor(object):
@@ -183,6 +191,17 @@ def cat():
         return wire.build_data(sid, b'\0' * (w + 1))
     add('data-overruns-stream-window', [FC], stream_overrun)
 
+    def padded_stream_overrun(h, sid, st):
+        # the payload alone fits the stream window; payload + Pad Length octet + padding is one octet too many
+        if st not in (('open_resp',) if h.e_client else ('open', 'open_resp', 'hc_local')):
+            return None
+        w = h.c.remote_flow_control_window(sid)
+        if w >= 16384 or w < 1:
+            return None
+        n = max(0, w - 10)
+        return wire.build_data(sid, b'\0' * n, pad=w - n)
+    add('padded-data-overruns-stream-window', [FC], padded_stream_overrun, group='data-overruns-stream-window')
+
     def conn_overrun(h, sid, st):
         if st not in (('open_resp',) if h.e_client else ('open', 'open_resp', 'hc_local')):
             return None
@@ -209,6 +228,21 @@ def cat():
             return None
         return wire.build_settings([(4, h.c.remote_settings.initial_window_size + 1)])
     add('settings-iws-delta-overflows-stream-window', [FC], iws_delta_overflow)
+
+    def iws_delta_overflow_reserved(h, sid, st):
+        # the stream whose window would overflow is one the server has promised and not yet started
+        if st not in ('open', 'open_resp', 'hc_remote') or h.e_client:
+            return None
+        pid = h.e_next
+        if not h.t.call('push_stream', sid, pid, REQ).ok:
+            return None
+        h.e_next += 2
+        lw = h.c.streams[pid].outbound_flow_control_window
+        if not h.send(wire.build_window_update(pid, 2 ** 31 - 1 - lw)).ok:
+            return None
+        return wire.build_settings([(4, h.c.remote_settings.initial_window_size + 1)])
+    add('settings-iws-delta-overflows-reserved-stream-window', [FC], iws_delta_overflow_reserved, roles=(False,),
+        group='settings-iws-delta-overflows-stream-window')
 
     # ---- STREAM_CLOSED
     def on_closed_es(build):
@@ -483,7 +517,7 @@ def run_catalogue(item, rng, rep):
         found.extend(mon.check(data, res, rep))
 
     h, sid = build_state(e_client, state, observer=observer,
-                         small_window=(kind == 'data-overruns-stream-window'),
+                         small_window=(kind in ('data-overruns-stream-window', 'padded-data-overruns-stream-window')),
                          big_window=(kind == 'data-overruns-connection-window'))
     data = fn(h, sid, state)
     if data is None:
@@ -506,6 +540,15 @@ def run_catalogue(item, rng, rep):
     if res.exc is None:
         rep.count('catalogue_not_raised')
         rep.observe('not_raised', '%s/%s/%s' % (kind, state, role))
+        if kind in MUST_SURFACE:
+            # window violations may be answered on the stream instead (RFC 7540 6.9.1), but never taken in silence: the category
+            # has to surface somewhere
+            rsts = [f for f in res.frames if f.type == wire.RST_STREAM and f.error_code == wire.FLOW_CONTROL_ERROR]
+            rep.count('window_violations_checked_for_silent_acceptance')
+            if not rsts:
+                rep.violation('C18:violating-input-accepted:%s' % group,
+                              'violation class %s (state %s, %s) raised nothing and reset nothing: events %s, frames %s' %
+                              (kind, state, role, [type(e).__name__ for e in res.events], [f.brief() for f in res.frames]), wit(item, h))
         return
     if not isinstance(res.exc, h2.exceptions.ProtocolError):
         rep.count('catalogue_non_protocol_exception')
